@@ -18,6 +18,10 @@ Lemma K_al_af_len_bad : forall n m, al_af_len_bad n m = negb (m =? n).
 Proof. reflexivity. Qed.
 Lemma K_al_si_len_bad : forall n m, al_si_len_bad n m = negb (m =? n).
 Proof. reflexivity. Qed.
+Lemma K_seas_mask : forall start stop t, seas_mask start stop t t = ((start <=? t) && (t <? stop)).
+Proof. intros. unfold seas_mask. rewrite Z.geb_leb. reflexivity. Qed.
+Lemma K_seas_n_events : forall n, seas_n_events n = n.
+Proof. reflexivity. Qed.
 Lemma K_al_append_new_len : forall n m, al_append_new_len n m = n + m.
 Proof. reflexivity. Qed.
 
@@ -449,6 +453,27 @@ Section Sep.
   Lemma H_presel t ps : (nT <= t)%nat -> HS (presel_apply t ps) (fun t' => (nT <= t')%nat).
   Proof. intros Ht. destruct ps; cbn [presel_apply]; [apply H_select | apply hret; exact Ht]. Qed.
 
+  Lemma H_cons_seasonal_loop e masks : HS (cons_seasonal_loop e masks) (fun _ => True).
+  Proof.
+    induction masks as [|m r IH]; cbn [cons_seasonal_loop]; [apply hret; exact I|].
+    eapply hb; [apply H_getitem|]. intros _ _.
+    eapply hb; [apply H_getitem|]. intros _ _.
+    eapply hb; [apply H_select|]. intros s _.
+    eapply hb; [apply H_rdtab|]. intros x _.
+    eapply hb; [exact IH|]. intros ns _. apply hret; exact I.
+  Qed.
+  Lemma H_cons_seasonal e masks : HS (cons_seasonal e masks) (fun _ => True).
+  Proof.
+    unfold cons_seasonal. eapply hb; [apply H_getitem|]. intros bt _.
+    eapply hb; [apply H_rdbuf|]. intros v _.
+    eapply hb; [apply H_cons_seasonal_loop|]. intros ns _. apply hret; exact I.
+  Qed.
+  Lemma H_cons_sig_candidates mc idx : HS (cons_sig_candidates mc idx) (fun _ => True).
+  Proof.
+    unfold cons_sig_candidates. eapply hb; [apply H_select|]. intros s _.
+    eapply hb; [apply H_getitem|]. intros b _. apply H_rdbuf.
+  Qed.
+
   Lemma H_exp_fields w i : HS (exp_fields w i) (fun _ => True).
   Proof.
     unfold exp_fields. destruct (nth_error (w_exp w) i); [|apply hraise].
@@ -526,7 +551,7 @@ Section Sep.
   Lemma step_Tr o w : Inv w -> Tr w (fst (step o w)).
   Proof.
     intros Iw. pose proof Iw as (Gw & R1 & R2 & R3 & R4).
-    destruct o as [i m|i cfgf keepmc presel idx m|i cfgf keepmc m comps presel idx|i n fill gs|i|i|i l|i es|i srt l|i|i|i|i];
+    destruct o as [i m|i cfgf keepmc presel idx m|i cfgf keepmc m comps presel idx|i n fill gs|i|i|i l|i es|i srt l|i|i|i|i|i masks|i idx];
       cbn [step].
     - (* GenBkgFixed *)
       destruct (nth_error (w_exp w) i) as [e|]; [|apply Tr_refl; exact Iw].
@@ -615,6 +640,14 @@ Section Sep.
       cbn [fst].
       destruct (set_sig_inv w i None Iw I) as (I1 & S1 & E1 & M1).
       split; [exact I1|]. rewrite S1, E1, M1. repeat split; auto.
+    - (* ConsSeasonal *)
+      destruct (nth_error (w_exp w) i) as [e|]; [|apply Tr_refl; exact Iw].
+      eapply on_store_Tr with (Q := fun _ => True); [exact Iw | apply H_cons_seasonal|].
+      intros w' _ Iw' _. repeat split; auto; apply Iw'.
+    - (* ConsSigCand *)
+      destruct (nth_error (w_mc w) i) as [mc|]; [|apply Tr_refl; exact Iw].
+      eapply on_store_Tr with (Q := fun _ => True); [exact Iw | apply H_cons_sig_candidates|].
+      intros w' _ Iw' _. repeat split; auto; apply Iw'.
   Qed.
 
   Lemma run_Tr ops : forall w, Inv w -> Tr w (fst (run ops w)).
@@ -1021,4 +1054,13 @@ Theorem preserved_calls : forall w0 gs,
 Proof.
   intros w0 gs Tf w. destruct (run_calls_as_run gs w0) as (ops & E). subst w. rewrite E.
   exact (preserved_full w0 ops Tf).
+Qed.
+
+(* construction of the seasonal scrambling: the mask of a run is the half-open membership test *)
+Lemma seasonal_masks_spec : forall runs times,
+  seasonal_masks runs times =
+  map (fun r => map (fun t => (fst r <=? t) && (t <? snd r)) times) runs.
+Proof.
+  intros runs times. unfold seasonal_masks. apply map_ext. intros r. apply map_ext. intros t.
+  apply K_seas_mask.
 Qed.
